@@ -19,6 +19,10 @@ HARNESSES = [
                      '0 when neither chain crosses a keystone boundary; the winner becomes the tip; honest chains activate'],
      'rungs': {'quick': [{'defines': ['NEND=2', 'LMAX=3'], 'bound': 'two chains of 1..3 blocks forking at the bootstrap block, keystone interval 1..2, finality delay 1..4, 2 honest endorsements with symbolic containing/endorsed/block of proof on a shared SP chain', 'timeout': 280}],
                'thorough': [{'defines': ['NEND=3', 'LMAX=4'], 'bound': 'chains of 1..4 blocks, 3 endorsements', 'timeout': 3000}, {'defines': ['NEND=2', 'LMAX=4'], 'bound': 'chains of 1..4 blocks, 2 endorsements', 'timeout': 1500}]}},
+    {'name': 'h_ks', 'src': 'C03/h_ks.cpp', 'entry': 'h_ks', 'repo_srcs': ['src/pop/keystone_util.cpp'], 'covers': [1, 2, 3], 'jobs': 8,
+     'obligations': ['keystone_util: isKeystone, highestKeystoneAtOrBefore, firstKeystoneAfter, blockHeightToKeystoneNumber, highestBlockWhichConnectsKeystoneToPrevious, isCrossedKeystoneBoundary, areOnSameKeystoneInterval, getPreviousKeystoneHeight == their arithmetic definitions for every height pair in the bound and every interval'],
+     'rungs': {'quick': [{'defines': ['KIMAX=8', 'HMASK=0x3ff'], 'bound': 'heights 0..1023 (two symbolic heights), keystone interval 1..8', 'timeout': 250}],
+               'thorough': [{'defines': ['KIMAX=21', 'HMASK=0xffff'], 'bound': 'heights 0..65535, keystone interval 1..21', 'timeout': 1500}]}},
 ]
 EXPLANATION = 'The real scoring function is executed on symbolic publication profiles and compared with an independent reference on every path.'
 ASSUMPTIONS = ['the reference scorer of DESIGN.md appendix A is the protocol definition (pre-validated against the unchanged tree on 1.4 M profiles)',
